@@ -10,767 +10,10 @@
 //   constructs  sequences of documented constructs vs the reference evaluator
 //   dump*       format_data / print_data decoded by an independent dump parser (address, hex, ASCII,
 //               float/double columns, colour highlighting, zero-line collapsing, iovec partitions)
-#include <inttypes.h>
-#include <math.h>
-#include <stdio.h>
-#include <string.h>
-#include <sys/stat.h>
-#include <sys/uio.h>
-#include <unistd.h>
+#include "C09_common.hh"
 
-#include <string>
-#include <vector>
+using namespace c09;
 
-#include "Strings.hh"
-#include "vf.hh"
-
-using std::string;
-using std::vector;
-
-namespace {
-
-string hexs(const string& s) {
-  string o;
-  char b[4];
-  for (unsigned char c : s) {
-    snprintf(b, sizeof(b), "%02x", c);
-    o += b;
-  }
-  return o;
-}
-string hexs(const void* p, size_t n) { return hexs(string((const char*)p, n)); }
-
-// ---------- exact-size text for parse_data_string ----------------------------------------------------
-// parse_data_string takes a const std::string& and walks c_str().  A real std::string keeps short texts
-// in its 16-byte in-object buffer, where a read past the terminator is invisible to ASan.  ExactStr
-// builds a libstdc++ std::string representation {pointer, length, capacity} whose character pointer is
-// a malloc(len+1) block, so the byte after the terminator is an ASan redzone.  The object is only ever
-// used through a const reference and never destroyed as a std::string.  selftest() verifies the layout
-// assumption at run time; if it does not hold the harness falls back to ordinary strings and says so.
-struct ExactStr {
-  alignas(std::string) unsigned char obj[sizeof(std::string)];
-  char* buf;
-  explicit ExactStr(const string& text) {
-    static_assert(sizeof(std::string) == 32, "libstdc++ SSO std::string layout expected");
-    buf = (char*)malloc(text.size() + 1);
-    memcpy(buf, text.data(), text.size());
-    buf[text.size()] = 0;
-    struct {
-      char* p;
-      size_t len;
-      size_t cap;
-      size_t pad;
-    } l{buf, text.size(), text.size(), 0};
-    memcpy(obj, &l, sizeof(l));
-  }
-  ExactStr(const ExactStr&) = delete;
-  ~ExactStr() { free(buf); }
-  const std::string& str() const { return *reinterpret_cast<const std::string*>(obj); }
-  static bool selftest() {
-    for (const char* t : {"", "ab", "exactly-15-char", "a text that is longer than the small-string buffer"}) {
-      ExactStr e{string(t)};
-      const std::string& s = e.str();
-      if (s.size() != strlen(t) || s.c_str() != e.buf || s.data() != e.buf || s != string(t)) return false;
-    }
-    return true;
-  }
-};
-
-// ---------- reference evaluator of the documented data-string syntax ------------------------------------
-// Written from the comments in parse_data_string and the example in StringsTest:
-//   hex digit pairs are bytes; blanks and newlines separate; `$` toggles big-endian for what follows
-//   (initially little-endian); `#`, `##`, `###`, `####` + decimal number = 8/16/32/64-bit integer
-//   (negative = two's complement); `%` + number = float, `%%` = double; "..." = bytes with \n \r \t \"
-//   \' \\ escapes; '...' = each character widened to 16 bits; `//` to end of line and `/* */` are
-//   comments; `?` toggles the mask for the bytes that follow (initially enabled = 0xFF).
-// Everything the documentation does not settle makes the evaluator answer "don't care": a lone hex
-// digit, characters that are not part of any construct, numbers that are not plain decimals or do not
-// fit the width, unknown escapes, unterminated strings/comments, `/*/`, more than four `#`, `<file>`.
-struct Eval {
-  bool dontcare = false;
-  const char* why = "";
-  string data, mask;
-  string data_alt;  // identical except floats converted via double (both conversions are accepted)
-};
-
-bool is_hex(char c) { return (c >= '0' && c <= '9') || (c >= 'a' && c <= 'f') || (c >= 'A' && c <= 'F'); }
-int hexval(char c) { return (c <= '9') ? c - '0' : ((c | 0x20) - 'a' + 10); }
-bool is_dec(char c) { return c >= '0' && c <= '9'; }
-
-Eval ref_eval(const string& t) {
-  Eval e;
-  bool big = false, mask_on = true;
-  size_t i = 0, n = t.size();
-  auto dc = [&](const char* why) {
-    e.dontcare = true;
-    e.why = why;
-    return e;
-  };
-  auto emit = [&](const void* p, size_t k, bool swap_for_big, const void* alt = nullptr) {
-    const unsigned char* b = (const unsigned char*)p;
-    const unsigned char* a = (const unsigned char*)(alt ? alt : p);
-    for (size_t j = 0; j < k; j++) {
-      size_t src = (swap_for_big && big) ? (k - 1 - j) : j;  // p is little-endian
-      e.data.push_back((char)b[src]);
-      e.data_alt.push_back((char)a[src]);
-      e.mask.push_back(mask_on ? '\xFF' : '\x00');
-    }
-  };
-  while (i < n) {
-    char c = t[i];
-    if (c == 0) return dc("embedded NUL");
-    if (c == ' ' || c == '\n' || c == '\t' || c == '\r') {
-      i++;
-    } else if (is_hex(c)) {
-      if (i + 1 >= n || !is_hex(t[i + 1])) return dc("lone hex digit");
-      unsigned char b = (unsigned char)(hexval(c) * 16 + hexval(t[i + 1]));
-      emit(&b, 1, false);
-      i += 2;
-    } else if (c == '?') {
-      mask_on = !mask_on;
-      i++;
-    } else if (c == '$') {
-      big = !big;
-      i++;
-    } else if (c == '#') {
-      size_t k = 0;
-      while (i < n && t[i] == '#') {
-        k++;
-        i++;
-      }
-      if (k > 4) return dc("more than four #");
-      bool neg = false;
-      if (i < n && t[i] == '-') {
-        neg = true;
-        i++;
-      }
-      size_t d0 = i;
-      while (i < n && is_dec(t[i])) i++;
-      size_t nd = i - d0;
-      if (nd == 0) return dc("# without a decimal number");
-      if (nd > 1 && t[d0] == '0') return dc("leading zero (octal?)");
-      if (nd > 20) return dc("number too long");
-      if (i < n && (t[i] == 'x' || t[i] == 'X') && nd == 1 && t[d0] == '0') return dc("0x prefix");
-      unsigned __int128 mag = 0;
-      for (size_t j = d0; j < i; j++) mag = mag * 10 + (unsigned)(t[j] - '0');
-      unsigned bits = 8u << (k - 1);
-      unsigned __int128 lim_pos = (unsigned __int128)1 << bits, lim_neg = (unsigned __int128)1 << (bits - 1);
-      if (neg ? (mag > lim_neg) : (mag >= lim_pos)) return dc("number does not fit the width");
-      uint64_t v = (uint64_t)mag;
-      if (neg) v = (uint64_t)0 - v;
-      unsigned char le[8];
-      for (unsigned j = 0; j < 8; j++) le[j] = (unsigned char)(v >> (8 * j));
-      emit(le, bits / 8, true);
-    } else if (c == '%') {
-      bool dbl = false;
-      i++;
-      if (i < n && t[i] == '%') {
-        dbl = true;
-        i++;
-      }
-      size_t s0 = i;
-      if (i < n && t[i] == '-') i++;
-      size_t m0 = i;
-      while (i < n && is_dec(t[i])) i++;
-      size_t int_digits = i - m0, frac_digits = 0;
-      if (i < n && t[i] == '.') {
-        size_t f0 = i + 1, j = f0;
-        while (j < n && is_dec(t[j])) j++;
-        frac_digits = j - f0;
-        if (int_digits + frac_digits > 0) i = j;
-      }
-      if (int_digits + frac_digits == 0) return dc("% without a decimal number");
-      if (int_digits > 1 && t[m0] == '0') {
-        // fine for floats ("007.5" is decimal), nothing to do
-      }
-      if (int_digits == 1 && t[m0] == '0' && frac_digits == 0 && i < n && (t[i] == 'x' || t[i] == 'X')) return dc("hex float");
-      if (i < n && (t[i] == 'e' || t[i] == 'E')) {
-        size_t j = i + 1;
-        if (j < n && (t[j] == '-' || t[j] == '+')) j++;
-        size_t x0 = j;
-        while (j < n && is_dec(t[j])) j++;
-        if (j > x0) i = j;  // exponent only counts with digits; otherwise the number ended before the 'e'
-      }
-      string tok = t.substr(s0, i - s0);
-      if (dbl) {
-        double v = strtod(tok.c_str(), nullptr);
-        emit(&v, 8, true);
-      } else {
-        float v = strtof(tok.c_str(), nullptr);
-        float v2 = (float)strtod(tok.c_str(), nullptr);
-        emit(&v, 4, true, &v2);
-      }
-    } else if (c == '"' || c == '\'') {
-      bool wide = (c == '\'');
-      i++;
-      for (;;) {
-        if (i >= n) return dc("unterminated string");
-        char ch = t[i];
-        if (ch == 0) return dc("embedded NUL");
-        if (ch == c) {
-          i++;
-          break;
-        }
-        if (ch == '\\') {
-          if (i + 1 >= n) return dc("backslash at end of text");
-          char x = t[i + 1];
-          if (x == 'n') ch = '\n';
-          else if (x == 'r') ch = '\r';
-          else if (x == 't') ch = '\t';
-          else if (x == '"' || x == '\'' || x == '\\') ch = x;
-          else return dc("undocumented escape");
-          i += 2;
-        } else i++;
-        if (wide) {
-          if ((unsigned char)ch >= 0x80) return dc("non-ASCII character in a wide string");
-          unsigned char le[2] = {(unsigned char)ch, 0};
-          emit(le, 2, true);
-        } else emit(&ch, 1, false);
-      }
-    } else if (c == '/') {
-      if (i + 1 < n && t[i + 1] == '/') {
-        size_t nl = t.find('\n', i);
-        i = (nl == string::npos) ? n : nl + 1;
-      } else if (i + 1 < n && t[i + 1] == '*') {
-        if (i + 2 < n && t[i + 2] == '/') return dc("/*/");
-        size_t cl = t.find("*/", i + 2);
-        if (cl == string::npos) return dc("unterminated comment");
-        i = cl + 2;
-      } else return dc("lone slash");
-    } else return dc("character outside the documented syntax");
-  }
-  return e;
-}
-
-struct Parsed {
-  string oc, what;       // outcome of the call with a mask pointer
-  string data, mask;     // result with a mask pointer
-  string data_nomask;    // result without
-  string oc2;
-};
-
-// Runs the real parser on an exact-size copy of the text, with and without a mask pointer.
-Parsed run_parser(const string& text, bool exact, uint64_t flags = 0, bool also_without_mask = true) {
-  Parsed p;
-  p.oc2 = "ok";
-  if (exact) {
-    ExactStr es(text);
-    p.oc = vf::outcome([&] { p.data = phosg::parse_data_string(es.str(), &p.mask, flags); }, &p.what);
-    if (also_without_mask) p.oc2 = vf::outcome([&] { p.data_nomask = phosg::parse_data_string(es.str(), nullptr, flags); });
-  } else {
-    p.oc = vf::outcome([&] { p.data = phosg::parse_data_string(text, &p.mask, flags); }, &p.what);
-    if (also_without_mask) p.oc2 = vf::outcome([&] { p.data_nomask = phosg::parse_data_string(text, nullptr, flags); });
-  }
-  return p;
-}
-
-// Totality + agreement with the reference evaluator; returns true if the case passed.
-bool check_parse(vf::Run& r, const string& text, bool exact, const char* okprefix) {
-  Parsed p = run_parser(text, exact);
-  auto ctx = [&] { return "parse_data_string(" + vf::show(text) + ")"; };
-  if (p.oc != "ok" || p.oc2 != "ok") {
-    r.fail("parse_data_string:throws", [&] { return ctx() + " threw " + (p.oc != "ok" ? p.oc : p.oc2) + " (" + p.what + "); without ALLOW_FILES the parser accepts any text"; });
-    return false;
-  }
-  if (p.data != p.data_nomask) {
-    r.fail("parse_data_string:mask-pointer-changes-data", [&] { return ctx() + " returns " + hexs(p.data) + " with a mask pointer and " + hexs(p.data_nomask) + " without"; });
-    return false;
-  }
-  bool mask_ok = p.mask.size() == p.data.size();
-  for (unsigned char m : p.mask) mask_ok &= (m == 0x00 || m == 0xFF);
-  if (!mask_ok) {
-    r.fail("parse_data_string:mask-shape", [&] { return ctx() + vf::fmt(" returns %zu data bytes but mask ", p.data.size()) + hexs(p.mask) + " (must be one 00/FF byte per data byte)"; });
-    return false;
-  }
-  Eval e = ref_eval(text);
-  if (e.dontcare) {
-    r.ok(string(okprefix) + "dont-care(" + e.why + ")");
-    return true;
-  }
-  r.nontriv();
-  if (p.data != e.data && p.data != e.data_alt) {
-    r.fail("parse_data_string:wrong-bytes", [&] { return ctx() + " == " + hexs(p.data) + ", documented syntax defines " + hexs(e.data); });
-    return false;
-  }
-  if (p.mask != e.mask) {
-    r.fail("parse_data_string:wrong-mask", [&] { return ctx() + " mask == " + hexs(p.mask) + ", documented syntax defines " + hexs(e.mask) + " (data " + hexs(e.data) + ")"; });
-    return false;
-  }
-  r.ok(string(okprefix) + (e.data.empty() ? "documented: no bytes" : "documented: bytes match"));
-  return true;
-}
-
-// ---------- scratch directory (empty; any attempt to open a file from it fails loudly) ---------------------
-
-struct ScratchDir {
-  string path;
-  int old_cwd = -1;
-  explicit ScratchDir(const char* tag) {
-    const char* root = getenv("VF_ROOT");
-    string base = string(root ? root : "/tmp") + "/build/scratch";
-    mkdir(base.c_str(), 0755);
-    base += "/C09";
-    mkdir(base.c_str(), 0755);
-    path = base + vf::fmt("/%s.%d", tag, (int)getpid());
-    mkdir(path.c_str(), 0755);
-    old_cwd = open(".", O_RDONLY | O_DIRECTORY);
-    if (chdir(path.c_str()) != 0) {
-      perror("C09: chdir scratch");
-      _exit(3);
-    }
-  }
-  ~ScratchDir() {
-    if (old_cwd >= 0) {
-      if (fchdir(old_cwd) != 0) {}
-      close(old_cwd);
-    }
-    rmdir(path.c_str());
-  }
-};
-
-// ---------- format_data_string round trip ----------------------------------------------------------------------
-
-struct RT {
-  vf::Run& r;
-  bool exact;
-};
-
-// on[i]: byte i enabled; full_checks: also run the (pointer, size) overload on exact-size heap copies and the
-// reference evaluator as a second reader of the produced text (parts A and C)
-void roundtrip_case(RT& c, const string& data, bool with_mask, const vector<bool>& on, bool full_checks) {
-  vf::Run& r = c.r;
-  string mask;
-  if (with_mask) {
-    for (size_t i = 0; i < data.size(); i++) {
-      static const unsigned char onv[3] = {0x01, 0x80, 0xFF};
-      mask.push_back(on[i] ? (char)onv[i % 3] : '\0');
-    }
-  }
-  for (uint64_t flags : {(uint64_t)0, (uint64_t)phosg::FormatDataFlags::HEX_ONLY}) {
-    string text, what;
-    string oc = vf::outcome([&] { text = phosg::format_data_string(data, with_mask ? &mask : nullptr, flags); }, &what);
-    auto ctx = [&] { return "format_data_string(data=" + hexs(data) + ", mask=" + (with_mask ? hexs(mask) : string("none")) + vf::fmt(", flags=%llu)", (unsigned long long)flags); };
-    if (oc != "ok") {
-      r.fail("format_data_string:throws", [&] { return ctx() + " threw " + oc + " (" + what + ")"; });
-      continue;
-    }
-    if (full_checks) {
-      // pointer overload on exact-size heap copies
-      char* d = (char*)malloc(data.size() ? data.size() : 1);
-      char* m = (char*)malloc(data.size() ? data.size() : 1);
-      memcpy(d, data.data(), data.size());
-      if (with_mask) memcpy(m, mask.data(), mask.size());
-      string text2;
-      string oc2 = vf::outcome([&] { text2 = phosg::format_data_string((const void*)d, data.size(), with_mask ? (const void*)m : nullptr, flags); });
-      free(d);
-      free(m);
-      if (oc2 != "ok" || text2 != text) {
-        r.fail("format_data_string:overloads-differ", [&] { return ctx() + " == " + vf::show(text) + " but the (pointer, size) overload gives " + (oc2 == "ok" ? vf::show(text2) : oc2); });
-        continue;
-      }
-    }
-    bool quoted = !text.empty() && text[0] == '"';
-    if (flags && text.find_first_of("\"'") != string::npos) {
-      r.fail("format_data_string:hex-only-ignored", [&] { return ctx() + " == " + vf::show(text) + " contains a quoted string although HEX_ONLY was given"; });
-      continue;
-    }
-    Parsed p = run_parser(text, c.exact, 0, false);
-    const char* form = quoted ? "quoted" : "hex";
-    if (p.oc != "ok") {
-      r.fail(string("parse_data_string:throws-on-formatted-") + form, [&] { return ctx() + " == " + vf::show(text) + "; parsing that threw " + p.oc; });
-      continue;
-    }
-    if (p.data != data) {
-      r.fail(string("format_data_string:") + form + "-form-not-lossless", [&] { return ctx() + " == " + vf::show(text) + ", which parses back to " + hexs(p.data) + vf::fmt(" (%zu bytes; the input has %zu)", p.data.size(), data.size()); });
-      continue;
-    }
-    if (with_mask) {
-      bool same = p.mask.size() == data.size();
-      for (size_t i = 0; same && i < data.size(); i++) same = ((unsigned char)p.mask[i] == (on[i] ? 0xFF : 0x00));
-      if (!same) {
-        r.fail(string("format_data_string:") + form + "-form-mask-lost", [&] { return ctx() + " == " + vf::show(text) + ", parsed mask " + hexs(p.mask) + " does not classify the bytes as the given mask does"; });
-        continue;
-      }
-    }
-    // second opinion: the reference evaluator reads the produced text the same way
-    if (full_checks) {
-      Eval e = ref_eval(text);
-      if (!e.dontcare && e.data == data && (!with_mask || e.mask == p.mask)) r.xchecked++;
-      else r.counters["formatted text outside the documented syntax or read differently by the reference evaluator"]++;
-    }
-    r.ok(string(form) + (with_mask ? " form, mask given" : " form, no mask"));
-  }
-}
-
-const unsigned char SYM16[16] = {0x00, 'a', '"', '\'', '\\', '\n', '\t', '?', '#', '$', '%', '/', '*', 0x7F, 0x80, 0xFF};
-
-string fill_pattern(int kind, size_t len, size_t metapos, char meta) {
-  string s(len, '\0');
-  for (size_t i = 0; i < len; i++) {
-    switch (kind) {
-      case 0: s[i] = (char)('A' + (i * 7) % 58); break;            // printable
-      case 1: s[i] = (char)('a' + i % 26); break;                   // printable + one metacharacter
-      case 2: s[i] = (char)((i * 37 + 11) & 0xFF); break;           // binary
-      case 3: s[i] = 0; break;                                      // zeros
-    }
-  }
-  if (kind == 0) for (size_t i = 0; i < len; i++) if (s[i] == '\\' ) s[i] = '_';  // keep pattern 0 free of metacharacters
-  if (kind == 1 && len) s[metapos] = meta;
-  return s;
-}
-
-// ---------- hex dump: independent parser + checker ---------------------------------------------------------------
-
-struct Cell {
-  char c;
-  bool red, inv;
-};
-
-// Strips terminal escapes; records for every visible character whether bold-red / inverse was active.
-bool decolor(const string& line, vector<Cell>& out) {
-  bool red = false, inv = false;
-  for (size_t i = 0; i < line.size();) {
-    if (line[i] == '\033') {
-      if (i + 1 >= line.size() || line[i + 1] != '[') return false;
-      size_t m = line.find('m', i);
-      if (m == string::npos) return false;
-      string params = line.substr(i + 2, m - i - 2);
-      size_t p = 0;
-      while (p <= params.size()) {
-        size_t q = params.find(';', p);
-        if (q == string::npos) q = params.size();
-        string one = params.substr(p, q - p);
-        if (one == "0") red = inv = false;
-        else if (one == "31") red = true;
-        else if (one == "7") inv = true;
-        else if (one == "1") {}
-        else return false;
-        p = q + 1;
-      }
-      i = m + 1;
-    } else {
-      out.push_back({line[i], red, inv});
-      i++;
-    }
-  }
-  return true;
-}
-
-struct Line {
-  uint64_t addr = 0;
-  size_t addr_digits = 0;
-  int hex[16];        // -1 = blank
-  bool hex_red[16];
-  char ascii[16];
-  bool ascii_red[16];
-  string fcol[4], dcol[2];
-  bool stray_red = false;  // a red character outside the byte / float fields
-};
-
-bool is_uhex(char c) { return (c >= '0' && c <= '9') || (c >= 'A' && c <= 'F'); }
-
-// Position-driven parser of one dump line under a given flag set.  Returns "" or what is malformed.
-string parse_dump_line(const string& raw, uint64_t flags, Line& L) {
-  using namespace phosg;
-  vector<Cell> v;
-  if (!decolor(raw, v)) return "malformed terminal escape";
-  bool skip = flags & PrintDataFlags::SKIP_SEPARATOR;
-  size_t p = 0, n = v.size();
-  auto lit = [&](const char* s) {
-    for (; *s; s++, p++) {
-      if (p >= n || v[p].c != *s) return false;
-      if (v[p].red) L.stray_red = true;
-    }
-    return true;
-  };
-  while (p < n && is_uhex(v[p].c)) {
-    if (L.addr_digits >= 16) return "address longer than 16 digits";
-    L.addr = (L.addr << 4) | (uint64_t)hexval(v[p].c);
-    if (v[p].red) L.stray_red = true;
-    L.addr_digits++;
-    p++;
-  }
-  if (L.addr_digits == 0) return "no address";
-  if (!skip && !lit(" |")) return "separator after the address";
-  for (int i = 0; i < 16; i++) {
-    if (p + 3 > n) return "hex column truncated";
-    if (v[p].c != ' ') return "hex field does not start with a space";
-    char a = v[p + 1].c, b = v[p + 2].c;
-    if (a == ' ' && b == ' ') {
-      L.hex[i] = -1;
-      L.hex_red[i] = false;
-      if (v[p + 1].red || v[p + 2].red) L.stray_red = true;
-    } else if (is_uhex(a) && is_uhex(b)) {
-      L.hex[i] = hexval(a) * 16 + hexval(b);
-      if (v[p + 1].red != v[p + 2].red) return "byte half highlighted";
-      L.hex_red[i] = v[p + 1].red;
-    } else return "hex field is neither blank nor two upper-case hex digits";
-    p += 3;
-  }
-  if (flags & PrintDataFlags::PRINT_ASCII) {
-    if (!lit(skip ? " " : " | ")) return "separator before the ASCII column";
-    if (p + 16 > n) return "ASCII column truncated";
-    for (int i = 0; i < 16; i++, p++) {
-      L.ascii[i] = v[p].c;
-      L.ascii_red[i] = v[p].red;
-    }
-  }
-  auto fields = [&](string* out, int count) -> const char* {
-    if (!lit(skip ? " " : " |")) return "separator before a float column";
-    for (int i = 0; i < count; i++) {
-      if (p + 13 > n) return "float column truncated";
-      for (int k = 0; k < 13; k++, p++) out[i].push_back(v[p].c);
-    }
-    return nullptr;
-  };
-  if (flags & PrintDataFlags::PRINT_FLOAT) {
-    if (const char* err = fields(L.fcol, 4)) return err;
-  }
-  if (flags & PrintDataFlags::PRINT_DOUBLE) {
-    if (const char* err = fields(L.dcol, 2)) return err;
-  }
-  if (p != n) return "trailing characters";
-  return "";
-}
-
-struct DumpCase {
-  const uint8_t* data;
-  const uint8_t* prev;  // may be null
-  size_t size;
-  uint64_t start;
-  uint64_t flags;
-};
-
-string describe_dump(const DumpCase& c) {
-  string s = vf::fmt("format_data(%zu bytes %s, start_address=0x%" PRIX64 ", flags=0x%04" PRIX64, c.size, hexs(c.data, c.size > 64 ? 64 : c.size).c_str(), c.start, c.flags);
-  if (c.size > 64) s += "...";
-  if (c.prev) s += ", prev=" + hexs(c.prev, c.size > 64 ? 64 : c.size);
-  return s + ")";
-}
-
-// Returns "" when the dump text is a faithful rendering, else "<key>\t<detail>".
-string check_dump(const DumpCase& c, const string& out) {
-  using namespace phosg;
-  auto fail = [](const char* key, const string& d) { return string(key) + "\t" + d; };
-  if (c.size == 0) return out.empty() ? "" : fail("format_data:output-for-empty-data", "output " + vf::show(out));
-  if (out.empty()) return fail("format_data:no-output", "nothing was printed");
-  if (out.back() != '\n') return fail("format_data:unparseable-line", "output does not end with a newline");
-  const uint64_t last = c.start + (c.size - 1);  // no wrap for the addresses used
-  const uint64_t first_line = c.start & ~(uint64_t)15, last_line = last & ~(uint64_t)15;
-  const bool collapse = c.flags & PrintDataFlags::COLLAPSE_ZERO_LINES;
-  const bool use_color = c.flags & PrintDataFlags::USE_COLOR;
-  const bool big = c.flags & (PrintDataFlags::REVERSE_ENDIAN_FLOATS | PrintDataFlags::BIG_ENDIAN_FLOATS);
-  int min_digits = 0;
-  if (c.flags & PrintDataFlags::OFFSET_8_BITS) min_digits = 2;
-  else if (c.flags & PrintDataFlags::OFFSET_16_BITS) min_digits = 4;
-  else if (c.flags & PrintDataFlags::OFFSET_32_BITS) min_digits = 8;
-  else if (c.flags & PrintDataFlags::OFFSET_64_BITS) min_digits = 16;
-
-  auto in_range = [&](uint64_t a) { return a >= c.start && a <= last; };
-  auto line_is_zero = [&](uint64_t la, const uint8_t* buf) {
-    for (int i = 0; i < 16; i++) {
-      uint64_t a = la + i;
-      if (a < la) break;
-      if (in_range(a) && buf[a - c.start]) return false;
-    }
-    return true;
-  };
-  // which line addresses may / must be absent
-  auto may_omit = [&](uint64_t la) { return collapse && la != first_line && la != last_line && line_is_zero(la, c.data); };
-  auto must_omit = [&](uint64_t la) { return may_omit(la) && (!c.prev || line_is_zero(la, c.prev)); };
-
-  uint64_t expect_next = first_line;  // smallest line address not yet accounted for
-  bool done = false;
-  size_t pos = 0;
-  while (pos < out.size()) {
-    size_t nl = out.find('\n', pos);
-    string raw = out.substr(pos, nl - pos);
-    pos = nl + 1;
-    Line L;
-    string err = parse_dump_line(raw, c.flags, L);
-    if (!err.empty()) return fail("format_data:unparseable-line", err + " in line " + vf::show(raw));
-    if (done) return fail("format_data:extra-line", "line " + vf::show(raw) + " after the last line");
-    if ((L.addr & 15) || L.addr < expect_next || L.addr > last_line) return fail("format_data:line-address", vf::fmt("line address %" PRIX64 " (expected a multiple of 16 in [%" PRIX64 ", %" PRIX64 "])", L.addr, expect_next, last_line));
-    for (uint64_t la = expect_next; la != L.addr; la += 16)
-      if (!may_omit(la)) return fail("format_data:line-missing", vf::fmt("no line for address %" PRIX64 " although it is %s", la, collapse ? "not an all-zero interior line" : "inside the data and COLLAPSE_ZERO_LINES is off"));
-    if (must_omit(L.addr)) return fail("format_data:zero-line-not-collapsed", vf::fmt("all-zero interior line %" PRIX64 " is printed although COLLAPSE_ZERO_LINES is set", L.addr));
-    if (L.addr == last_line) done = true;
-    else expect_next = L.addr + 16;
-    // address width
-    int natural = 1;
-    for (uint64_t a = L.addr; a >= 16; a >>= 4) natural++;
-    if (min_digits && (int)L.addr_digits != (natural > min_digits ? natural : min_digits))
-      return fail("format_data:address-width", vf::fmt("address %s printed with %zu digits, OFFSET_*_BITS flag asks for %d", vf::show(raw.substr(0, 20)).c_str(), L.addr_digits, min_digits));
-    if (L.stray_red) return fail("format_data:highlight", "address, separator or blank field is highlighted in line " + vf::show(raw));
-    // hex + ASCII columns
-    for (int i = 0; i < 16; i++) {
-      uint64_t a = L.addr + (uint64_t)i;
-      bool valid = a >= L.addr && in_range(a);
-      if (!valid) {
-        if (L.hex[i] != -1) return fail("format_data:hex-column", vf::fmt("byte %02X shown at address %" PRIX64 " which is outside the data", L.hex[i], a));
-        if ((c.flags & PrintDataFlags::PRINT_ASCII) && L.ascii[i] != ' ') return fail("format_data:ascii-column", vf::fmt("character '%c' shown at address %" PRIX64 " which is outside the data", L.ascii[i], a));
-        continue;
-      }
-      uint8_t want = c.data[a - c.start];
-      if (L.hex[i] != want) return fail("format_data:hex-column", vf::fmt("address %" PRIX64 " shows %s, data byte is %02X", a, L.hex[i] < 0 ? "blank" : vf::fmt("%02X", L.hex[i]).c_str(), want));
-      bool differs = c.prev && c.prev[a - c.start] != want;
-      bool want_red = use_color && differs;
-      if (L.hex_red[i] != want_red) return fail("format_data:highlight", vf::fmt("hex byte at address %" PRIX64 " is %shighlighted but %s the previous buffer", a, L.hex_red[i] ? "" : "not ", differs ? "differs from" : "equals"));
-      if (c.flags & PrintDataFlags::PRINT_ASCII) {
-        char wc = (want >= 0x20 && want < 0x7F) ? (char)want : ' ';
-        if (L.ascii[i] != wc) return fail("format_data:ascii-column", vf::fmt("address %" PRIX64 " shows '%c' in the ASCII column, data byte is %02X", a, L.ascii[i], want));
-        if (L.ascii_red[i] != want_red) return fail("format_data:highlight", vf::fmt("ASCII character at address %" PRIX64 " is %shighlighted but %s the previous buffer", a, L.ascii_red[i] ? "" : "not ", differs ? "differs from" : "equals"));
-      }
-    }
-    // float / double columns: blank unless the whole field is inside the data, else a rendering of the value
-    // (read in the byte order the flags document) that is numerically right to 5 significant digits
-    auto field_check = [&](const string* col, int count, int fsize) -> string {
-      for (int f = 0; f < count; f++) {
-        uint64_t a0 = L.addr + (uint64_t)(f * fsize), a1 = a0 + (uint64_t)(fsize - 1);
-        bool valid = a0 >= L.addr && a1 >= a0 && in_range(a0) && in_range(a1);
-        const char* kind = fsize == 4 ? "float" : "double";
-        bool blank = col[f].find_first_not_of(' ') == string::npos;
-        if (!valid) {
-          if (!blank) return vf::fmt("%s field at address %" PRIX64 " shows %s although not all of its bytes are inside the data", kind, a0, vf::show(col[f]).c_str());
-          continue;
-        }
-        uint8_t b[8];
-        for (int k = 0; k < fsize; k++) b[k] = c.data[a0 - c.start + (big ? (fsize - 1 - k) : k)];
-        double v;
-        if (fsize == 4) {
-          float fv;
-          memcpy(&fv, b, 4);
-          v = fv;
-        } else memcpy(&v, b, 8);
-        bool ok;
-        if (blank) ok = false;
-        else if (isnan(v)) ok = col[f].find("nan") != string::npos || col[f].find("NAN") != string::npos;
-        else {
-          char* end = nullptr;
-          double g = strtod(col[f].c_str(), &end);
-          ok = end && *end == 0 && ((isinf(v) || v == 0) ? (g == v) : (fabs(g - v) <= 1e-4 * fabs(v)));
-        }
-        if (!ok) return vf::fmt("%s field at address %" PRIX64 " shows %s, the bytes there are the value %.6g", kind, a0, vf::show(col[f]).c_str(), v);
-      }
-      return "";
-    };
-    if (c.flags & PrintDataFlags::PRINT_FLOAT) {
-      string e = field_check(L.fcol, 4, 4);
-      if (!e.empty()) return fail("format_data:float-column", e);
-    }
-    if (c.flags & PrintDataFlags::PRINT_DOUBLE) {
-      string e = field_check(L.dcol, 2, 8);
-      if (!e.empty()) return fail("format_data:float-column", e);
-    }
-  }
-  if (!done) {
-    for (uint64_t la = expect_next;; la += 16) {
-      if (!may_omit(la)) return fail("format_data:line-missing", vf::fmt("no line for address %" PRIX64, la));
-      if (la == last_line) break;
-    }
-  }
-  return "";
-}
-
-void report_dump(vf::Run& r, const DumpCase& c, const string& out, const char* okclass) {
-  string res = check_dump(c, out);
-  if (res.empty()) {
-    r.ok(okclass);
-    return;
-  }
-  size_t tab = res.find('\t');
-  string key = res.substr(0, tab), detail = res.substr(tab + 1);
-  r.fail(key, [&] { return describe_dump(c) + ": " + detail + "\n--- output ---\n" + (out.size() > 900 ? out.substr(0, 900) + "..." : out); });
-}
-
-uint64_t dump_flag_combo(unsigned idx) {  // idx in [0, 640)
-  using namespace phosg;
-  static const uint64_t endian[4] = {0, PrintDataFlags::REVERSE_ENDIAN_FLOATS, PrintDataFlags::BIG_ENDIAN_FLOATS, PrintDataFlags::LITTLE_ENDIAN_FLOATS};
-  static const uint64_t width[5] = {0, PrintDataFlags::OFFSET_8_BITS, PrintDataFlags::OFFSET_16_BITS, PrintDataFlags::OFFSET_32_BITS, PrintDataFlags::OFFSET_64_BITS};
-  uint64_t f = 0;
-  unsigned cols = idx % 8;
-  idx /= 8;
-  if (cols & 1) f |= PrintDataFlags::PRINT_ASCII;
-  if (cols & 2) f |= PrintDataFlags::PRINT_FLOAT;
-  if (cols & 4) f |= PrintDataFlags::PRINT_DOUBLE;
-  f |= endian[idx % 4];
-  idx /= 4;
-  if (idx % 2) f |= PrintDataFlags::COLLAPSE_ZERO_LINES;
-  idx /= 2;
-  if (idx % 2) f |= PrintDataFlags::SKIP_SEPARATOR;
-  idx /= 2;
-  f |= width[idx % 5];
-  return f;
-}
-
-vector<uint8_t> dump_pattern(int kind, size_t n) {
-  vector<uint8_t> d(n ? n : 1, 0);
-  static const uint8_t edge[8] = {0x00, 0x1F, 0x20, 0x7E, 0x7F, 0x80, 0xFF, 0x7C};
-  for (size_t i = 0; i < n; i++) {
-    switch (kind) {
-      case 0: d[i] = (uint8_t)(0x1B + i * 13); break;          // mixed printable / binary
-      case 1: d[i] = (uint8_t)(0x20 + (i * 29 + 92) % 95); break;  // printable incl. '|' and space
-      case 2: d[i] = 0; break;                                  // zeros
-      case 3: d[i] = edge[(i + i / 8) % 8]; break;              // boundary values of the printable test
-    }
-  }
-  return d;
-}
-
-// every way to cut n bytes into k consecutive (possibly empty) parts
-void compositions(size_t n, size_t k, const std::function<void(const vector<size_t>&)>& fn) {
-  vector<size_t> parts(k, 0);
-  std::function<void(size_t, size_t)> rec = [&](size_t i, size_t left) {
-    if (i + 1 == k) {
-      parts[i] = left;
-      fn(parts);
-      return;
-    }
-    for (size_t x = 0; x <= left; x++) {
-      parts[i] = x;
-      rec(i + 1, left - x);
-    }
-  };
-  rec(0, n);
-}
-
-// iovecs over separate exact-size heap blocks (empty parts get a null base)
-struct IovSet {
-  vector<struct iovec> iov;
-  vector<void*> blocks;
-  IovSet(const uint8_t* data, const vector<size_t>& parts) {
-    size_t off = 0;
-    for (size_t len : parts) {
-      struct iovec v;
-      v.iov_len = len;
-      v.iov_base = nullptr;
-      if (len) {
-        v.iov_base = malloc(len);
-        memcpy(v.iov_base, data + off, len);
-        blocks.push_back(v.iov_base);
-      }
-      iov.push_back(v);
-      off += len;
-    }
-  }
-  IovSet(const IovSet&) = delete;
-  ~IovSet() {
-    for (void* b : blocks) free(b);
-  }
-};
-
-string via_memstream(const std::function<void(FILE*)>& fn) {
-  char* buf = nullptr;
-  size_t len = 0;
-  FILE* f = open_memstream(&buf, &len);
-  fn(f);
-  fclose(f);
-  string s(buf, len);
-  free(buf);
-  return s;
-}
-
-}  // namespace
 
 // =====================================================================================================
 
